@@ -42,7 +42,7 @@ def generate(pid, P):
         n0 = len(E.obligations)
         t0 = time.time()
         ok = E.verify(c)
-        modq, fq = E.split_func(n)
+        modq, fq = E.split_func(getattr(c, "real_name", None) or n)
         mod = Module.load(modq)
         funcs.append({"function": n, "file": os.path.relpath(mod.path, os.environ.get("PYVC_REPO", "/repo")),
                       "source_sha256_16": mod.func_hash(fq) if fq in mod.funcs else None,
